@@ -202,9 +202,9 @@ func c04(p *P) {
 				r.Undecided("C04.R2", "signature: signer accumulation", "accumulation stores not found in the ForEach closure")
 			} else {
 				p.guarded("C04.R2", cl, acc,
-					cmpRel("signer index within the table (not equal to len)", `^\$0$`, `len\(\^powerTable\)`, RelEQ),
-					cmpRel("signer index within the table (not above len)", `^\$0$`, `len\(\^powerTable\)`, RelGT),
-					cmpRel("signer has non-zero scaled power", `^\^scaled\[\$0\]$`, `^0$`, RelEQ))
+					cmpRel("signer index within the table (not equal to len)", `^\$0$`, `len\(\$\^1\)`, RelEQ),
+					cmpRel("signer index within the table (not above len)", `^\$0$`, `len\(\$\^1\)`, RelGT),
+					cmpRel("signer has non-zero scaled power", `^gpbft\.PowerEntries\.Scaled\(\$\^1\)#0\[\$0\]$`, `^0$`, RelEQ))
 			}
 		} else {
 			r.Undecided("C04.R2", "signature: ForEach closure", "closure not found")
